@@ -1,5 +1,6 @@
 (** C02: non-vacuity and refutation witnesses (known findings D8, D9). *)
 From Verif Require Import Json Outcome Match PatIndex State MatchSpec StateSpec.
+From Verif Require PendingProofs.
 
 Definition f1 : json := JObj [("a", JNum 1); ("b", JStr "x")].
 Definition f2 : json := JObj [("a", JNum 2); ("x!", JStr "foo")].
@@ -34,3 +35,11 @@ Lemma propvar_under_bang_refuted :
   snd (st_search s_ex p 200) = Ok [] /\
   snd (st_search (as_linear s_ex) p 200) = Ok [("i1", [[("?k", JStr "x!")]])].
 Proof. split; vm_compute; reflexivity. Qed.
+
+(** Since the repair of D52 (the readers note the expired ids, the public
+    entry points purge them): get_last_write / search_exact speak of states
+    with no purge pending.  In a state in which an id is noted a read returns
+    the same facts, with the list of noted ids emptied - not literally the
+    same state.  No reachable state is like that (C02.no_purge_left_pending). *)
+Definition reads_keep_state_needs_no_pending :=
+  Verif.PendingProofs.reads_keep_state_needs_no_pending_counterexample.
